@@ -1,9 +1,35 @@
 (* C07 -- Range/Items visit each qualifying entry once, never a phantom or expired one.
-   Cache level, sequential.  Map level: props/C11.v; interleaved: props/C07c.v. *)
+   C07_cache_range / C07_cache_items / C07_visits_are_events / C07_map_range_exact:
+   sequential histories (cache level; table level).
+   EVERY schedule of the concurrent machine XMachine (mapof.go; the machine that
+   CORR-sched replays step by step against the real code), proofs/X_range.v:
+     C07_range_once      the visits a thread has made since its last invocation
+                         have pairwise distinct keys -- in every reachable state,
+                         whatever stores, deletes, grows, shrinks and Clears the
+                         other threads interleave (the traversal walks ONE table,
+                         bucket by bucket; a key's home bucket in a table never
+                         changes; within a bucket keys are unique);
+     C07_range_snapshot  no phantom, nothing of the bucket missed: the pairs the
+                         traversal holds after locking bucket i are exactly what
+                         is visible in bucket i of the traversed table while it
+                         holds that lock (a half-written insert is not among
+                         them, a half-done delete is already gone);
+     C07_range_protocol  the traversal starts at bucket 0 of the table current
+                         when it loads the pointer, locks a bucket only when it
+                         is free, hands exactly the pairs taken to the visitor,
+                         in order, and goes on with the next bucket until the
+                         last one.
+   Not a theorem: "every key present for the whole call is visited" needs the
+   composition of C07_range_snapshot over all buckets with the fact that a table
+   that has been replaced is no longer written (C04: XR / write ownership); the
+   early stop and visitors that mutate the map are not in XMachine (XMachineS has
+   nested calls; searched there and on the real code). *)
 From CacheV Require Import Base SpecMap Client CacheModel CacheOfModel Ops SpecTTL.
 From CacheV Require Import TableModel.
 From CacheV.proofs Require Import C01_sim C01_ops C07_range C11_lists C11_table.
 From Coq Require Import NArith.
+From CacheV Require Import XMachine.
+From CacheV.proofs Require Import X_lin X_range.
 
 (* Whatever order the map hands out its pairs in (the hint), a traversal of the
    cache visits no key twice, only pairs that are current and unexpired at the
@@ -52,3 +78,76 @@ Proof.
   exists (abs nslots m). split; [reflexivity|]. split; [apply Hq | apply (meq_perm eqd); exact Hq].
 Qed.
 Print Assumptions C07_map_range_exact.
+
+(* ---------------- every schedule (MapOf machine) ---------------- *)
+
+Theorem C07_range_once :
+  forall (K V : Type) (eqd : forall a b : K, {a = b} + {a <> b})
+         (hash : K -> N -> N) (idx : N -> nat -> nat) (tag : N -> N) (nslots : nat) (seeds : nat -> N)
+         (grow_needed shrink_policy : nat -> Z -> bool) (probe : list (option N) -> N -> list nat)
+         (nstripes : nat -> nat) (minlen : nat) (grow_only : bool),
+    xhyps4 idx nstripes minlen nslots probe ->
+    forall len0 todo sched t, (0 < len0)%nat ->
+    NoDup (map fst (cv t [] (snd (@xrun K V eqd hash idx tag nslots seeds grow_needed shrink_policy probe nstripes minlen grow_only
+                                        (xinit nslots seeds nstripes len0 todo) sched)))).
+Proof. exact @range_once_proof. Qed.
+Print Assumptions C07_range_once.
+
+Theorem C07_range_snapshot :
+  forall (K V : Type) (eqd : forall a b : K, {a = b} + {a <> b})
+         (hash : K -> N -> N) (idx : N -> nat -> nat) (tag : N -> N) (nslots : nat) (seeds : nat -> N)
+         (grow_needed shrink_policy : nat -> Z -> bool) (probe : list (option N) -> N -> list nat)
+         (nstripes : nat -> nat) (minlen : nat) (grow_only : bool),
+    xhyps4 idx nstripes minlen nslots probe ->
+    forall len0 todo sched t tab i snap, (0 < len0)%nat ->
+    let s := fst (@xrun K V eqd hash idx tag nslots seeds grow_needed shrink_policy probe nstripes minlen grow_only
+                         (xinit nslots seeds nstripes len0 todo) sched) in
+    g_pc s t = PG_Unlock tab i snap ->
+    NoDup (map fst snap)
+    /\ (forall k v, In (k, v) snap <-> (X_lin.vis hash idx (tab_at nslots nstripes s tab) k v /\ home hash idx (tab_at nslots nstripes s tab) k = i))
+    /\ lock_of (tab_at nslots nstripes s tab) i = Some t.
+Proof. exact @range_snapshot_proof. Qed.
+Print Assumptions C07_range_snapshot.
+
+Theorem C07_range_protocol :
+  forall (K V : Type) (eqd : forall a b : K, {a = b} + {a <> b})
+         (hash : K -> N -> N) (idx : N -> nat -> nat) (tag : N -> N) (nslots : nat) (seeds : nat -> N)
+         (grow_needed shrink_policy : nat -> Z -> bool) (probe : list (option N) -> N -> list nat)
+         (nstripes : nat -> nat) (minlen : nat) (grow_only : bool) (s s' : @xstate K V) t ls,
+    let xstep := @xstep K V eqd hash idx tag nslots seeds grow_needed shrink_policy probe nstripes minlen grow_only in
+    let step_pc := @step_pc K V eqd hash idx tag nslots seeds grow_needed shrink_policy probe nstripes minlen grow_only in
+    (g_pc s t = PG_Table -> step_pc s t PG_Table = Some (s', ls) ->
+       ((0 < x_len (tab_at nslots nstripes s (g_cur s)))%nat /\ g_pc s' t = PG_Lock (g_cur s) 0)
+       \/ (x_len (tab_at nslots nstripes s (g_cur s)) = 0%nat /\ g_pc s' t = PIdle))
+    /\ (forall tab i, g_pc s t = PG_Lock tab i -> xstep s t = Some (s', ls) ->
+          lock_of (tab_at nslots nstripes s tab) i = None
+          /\ g_pc s' t = PG_Unlock tab i (live_pairs (chain_of (tab_at nslots nstripes s tab) i)))
+    /\ (forall tab i snap, g_pc s t = PG_Unlock tab i snap -> xstep s t = Some (s', ls) ->
+          cv t [] ls = snap
+          /\ (((S i < x_len (tab_at nslots nstripes s tab))%nat /\ g_pc s' t = PG_Lock tab (S i))
+              \/ ((x_len (tab_at nslots nstripes s tab) <= S i)%nat /\ g_pc s' t = PIdle))).
+Proof.
+  intros K V eqd hash idx tag nslots seeds g sh probe nstripes minlen grow_only s s' t ls xs sp. subst xs sp. split; [|split].
+  - intros Hp E. eapply range_start; eassumption.
+  - intros tab i Hp E. eapply range_lock; eassumption.
+  - intros tab i snap Hp E. eapply range_visits; eassumption.
+Qed.
+Print Assumptions C07_range_protocol.
+
+(* non-vacuity: thread 0 has stored two colliding keys; thread 1 traverses and stands
+   between lock and unlock of bucket 0 holding both pairs; after the unlock step its
+   visits are these two *)
+Definition ex_sched07 : list nat := (repeat 0 20 ++ [1; 1; 1])%nat.
+Definition ex_xrun07 sched :=
+  @xrun nat nat Nat.eq_dec (fun _ _ => 5%N) (fun h len => (N.to_nat h mod len)%nat) (fun h => h) 2%nat (fun _ => 0%N)
+        (fun _ _ => false) (fun _ _ => false) (fun tags tg => filter (fun i => match nth i tags None with Some t => N.eqb t tg | None => false end) (seq 0%nat (length tags)))
+        (fun _ => 1%nat) 1%nat false
+        (xinit 2%nat (fun _ => 0%N) (fun _ => 1%nat) 1%nat
+               (fun t => if Nat.eqb t 0%nat then [XCompute 7%nat (fun _ => Some 1%nat) false false false; XCompute 8%nat (fun _ => Some 2%nat) false false false]
+                         else if Nat.eqb t 1%nat then [XRange] else []))
+        sched.
+Example C07_nonvacuous :
+  g_pc (fst (ex_xrun07 ex_sched07)) 1%nat = PG_Unlock 0 0 [(7, 1); (8, 2)]%nat
+  /\ cv 1%nat [] (snd (ex_xrun07 (ex_sched07 ++ [1%nat]))) = [(7, 1); (8, 2)]%nat.
+Proof. vm_compute. split; reflexivity. Qed.
+Print Assumptions C07_nonvacuous.
